@@ -217,7 +217,7 @@ def ensure_generated():
     """The generated model files must exist for coq_makefile's dependency scan, whichever check runs first (each check
     regenerates the ones its property depends on; this only fills in missing ones, e.g. when no setup was run)."""
     gen = os.path.join(COQ, "theories", "Model")
-    missing = [n for n in ("GenTables.v", "GenLib.v", "GenTemplates.v", "GenImp.v", "GenImpMacro.v", "GenImpLeg.v", "GenImpAttr.v", "GenImpFold.v", "GenImpParse.v", "GenImpCheck.v", "GenImpGenerics.v", "GenImpVariants.v", "GenImpFields.v", "GenImpBridge.v") if not os.path.exists(os.path.join(gen, n))]
+    missing = [n for n in ("GenTables.v", "GenLib.v", "GenTemplates.v", "GenImp.v", "GenImpMacro.v", "GenImpLeg.v", "GenImpAttr.v", "GenImpFold.v", "GenImpParse.v", "GenImpCheck.v", "GenImpGenerics.v", "GenImpVariants.v", "GenImpFields.v", "GenImpReplyData.v", "GenImpBridge.v") if not os.path.exists(os.path.join(gen, n))]
     if not missing:
         return
     from . import translate, imp_translate
